@@ -48,6 +48,15 @@ def gen_world(seed, tier):
     if use_cyc:
         pool["G1"] = {"type": "graph", "v": gc}
     pool["G2"] = {"type": "graph", "v": gen.perturb(rng, gd)}       # a non-conserving weighting (for the flow-correction model)
+    base_ = [rng.randint(1, 6) for _ in range(rng.randint(2, 3))]
+    nums = sorted({sum(b for b in base_ if rng.random() < 0.6) or base_[0] for _ in range(4)})
+    pool["nums0"] = {"type": "plain", "v": nums, "total": sum(base_)}
+    pool["pc0"] = {"type": "plain", "v": [[base_[0], sum(base_[1:])]] if len(base_) > 1 else [[sum(base_)]]}
+    uni = list(range(rng.randint(2, 5)))
+    subs = [[u for u in uni if rng.random() < 0.5] or [uni[0]] for _ in range(rng.randint(2, 4))] + [list(uni)]
+    pool["uni0"] = {"type": "plain", "v": uni}
+    pool["subs0"] = {"type": "plain", "v": subs}
+    pool["sw0"] = {"type": "plain", "v": [rng.choice([1, 2, 3]) for _ in subs]}
     pool["oo0"] = {"type": "dict", "v": {}}
     oo1 = {}
     for k in rng.sample(["optimize_with_safe_paths", "optimize_with_safe_zero_edges", "optimize_with_greedy", "optimize_with_safe_sequences",
@@ -85,6 +94,35 @@ def gen_world(seed, tier):
         cname = rng.choice(CLASSES_CYC if cyc else CLASSES_DAG)
         if rng.random() < 0.1:
             cname = "MinErrorFlow"            # accepts any digraph
+        elif rng.random() < 0.12:
+            # the models without a graph, and the generic number-of-paths optimiser
+            cname = rng.choice(["MinGenSet", "MinSetCover", "NumPathsOptimization"])
+            if cname == "MinGenSet":
+                args = {"numbers": "@nums0", "total": pool["nums0"]["total"], "weight_type": rng.choice(["int", "float"])}
+                if rng.random() < 0.5:
+                    args["solver_options"] = "@so0"
+                if rng.random() < 0.3:
+                    args["partition_constraints"] = "@pc0"
+            elif cname == "MinSetCover":
+                args = {"universe": "@uni0", "subsets": "@subs0"}
+                if rng.random() < 0.6:
+                    args["subset_weights"] = "@sw0"
+                if rng.random() < 0.5:
+                    args["solver_options"] = "@so0"
+            else:
+                args = {"G": "@G2", "model_type": rng.choice(["kMinPathError", "kLeastAbsErrors"]), "stop_on_first_feasible": True,
+                        "min_num_paths": 1, "max_num_paths": 4, "weight_type": rng.choice(["int", "float"])}
+                if rng.random() < 0.5:
+                    args["optimization_options"] = "@" + rng.choice(["oo0", "oo1"])
+                if rng.random() < 0.5:
+                    args["solver_options"] = "@so0"
+            ops.append({"op": "construct", "h": h, "class": cname, "args": args})
+            for s_ in ["solve"] + rng.sample(["get_solution", "get_solution", "solve", "get_objective_value"], rng.randint(1, 3)):
+                if s_ == "get_objective_value" and cname in ("MinGenSet", "MinSetCover"):
+                    continue
+                ops.append({"op": s_, "h": h})
+            h += 1
+            continue
         gname = "G1" if cyc else "G0"
         g = gc if cyc else gd
         args = {"G": "@" + gname}
@@ -206,6 +244,12 @@ def _kwargs(op, pool_objs):
 def _construct(cname, kw):
     cls = models.cls_of(cname)
     kw = dict(kw)
+    if cname in ("MinGenSet", "MinSetCover"):
+        return cls(**kw)
+    if cname == "NumPathsOptimization":
+        G = kw.pop("G")
+        mt = kw.pop("model_type")
+        return cls(model_type=mt if not isinstance(mt, str) else models.cls_of(mt), G=G, flow_attr="flow", **kw)
     G = kw.pop("G")
     if cname in models.COVER_CLASSES:
         return cls(G, **kw)
@@ -227,6 +271,8 @@ def _defaults_snapshot():
 
 
 def _summ_solution(cname, sol):
+    if cname in ("MinGenSet", "MinSetCover") and isinstance(sol, list):
+        return len(sol)
     if cname == "MinErrorFlow" and isinstance(sol, dict):
         # no routes; which optimal correction comes back may differ between two solves (alternative optima), its error may not
         return None
@@ -270,7 +316,7 @@ def isolated_eval(payload):
             m.solve()
             res["solved"] = bool(m.is_solved())
             if res["solved"]:
-                res["objective"] = canon(m.get_objective_value())
+                res["objective"] = canon(m.get_objective_value()) if hasattr(m, "get_objective_value") else None
                 res["routes"] = _summ_solution(op["class"], m.get_solution())
         except SystemExit:
             res["exc"] = "solve:SystemExit"
@@ -379,7 +425,7 @@ def _execute(spec):
                             f0 = injected()
                             ret = m.solve()
                             st = bool(m.is_solved())
-                            ob = canon(m.get_objective_value()) if st else None
+                            ob = (canon(m.get_objective_value()) if hasattr(m, "get_objective_value") else None) if st else None
                             nr = _summ_solution(op["class"] if "class" in op else I["class"], m.get_solution()) if st else None
                             I["solves"].append({"solved": st, "objective": ob, "routes": nr, "faulted": injected() > f0, "inv": [a, sim.inv], "returned": None if ret is None else bool(ret)})
                             # a re-solve may legitimately deliver another optimum: getters are compared between solves only
